@@ -1,0 +1,10 @@
+//go:build verif
+
+// Contracts for package publicip, read by /verif/govc (comment lines starting with //@).
+
+package publicip
+
+// Interface protocol: a fetcher returns an address or an error; it touches none of the caller's state.
+//@ iface Fetcher.GetIP
+//@ ensures[fetch.clock]  now() >= old(now())
+//@ modifies ghost clock
